@@ -384,7 +384,9 @@ pub fn gen_frames(r: &mut Rng) -> MScn {
     if r.chance(1, 2) {
         use crate::genr::enc;
         let a = 0x6000 + r.below(0x100) as u16;
-        let seq: Vec<u16> = match r.below(4) {
+        let seq: Vec<u16> = match r.below(5) {
+            // a subroutine that goes back through another register holding the return address: a jump, not a return
+            4 => vec![enc::jsr(1), enc::trap(0x25), enc::add_i(1, 7, 0), enc::jmp(1)],
             0 => vec![enc::lea(7, 1), enc::RET, enc::lea(7, 1), enc::RET, enc::lea(7, 1), enc::RET, enc::trap(0x25)],
             1 => vec![enc::jsr(0), enc::jsr(0), enc::jsr(0), enc::lea(7, 1), enc::RET, enc::trap(0x25)],
             2 => vec![enc::lea(1, 2), enc::jsrr(1), enc::trap(0x25), enc::lea(7, -2), enc::jmp(7), enc::trap(0x25)],
